@@ -94,6 +94,11 @@ pub fn run_bisync(
     let host = host_id();
     // Start from the trusted base and mutate to the new common state as we apply.
     let mut common = base;
+    // Drop base entries for paths that exist on NEITHER side any more (deleted on
+    // both): reconcile only walks paths present on a side, so such an entry would
+    // never be removed and would later make a re-created file look like a
+    // one-sided delete of the old base version.
+    common.retain(|p, _| a.contains_key(p) || b.contains_key(p));
     let mut conflict_paths: Vec<PathBuf> = Vec::new();
     for (path, act) in &plan {
         apply(
